@@ -199,6 +199,70 @@ func flagDesc(phi *ssa.Phi, d int) string {
 	return "flag{" + strings.Join(uniq(sets), "|") + "}"
 }
 
+// stickyFlagOf: a boolean φ that controls the block and carries its value around a loop that contains the
+// block (declared outside the loop and never reset inside): the per-element decision depends on earlier elements.
+func stickyFlagOf(site *ssa.BasicBlock) *ssa.Phi {
+	loops := allLoopsOf(site.Parent())
+	for _, c := range core.ControlConds(site) {
+		v := c.Value
+		for {
+			if u, ok := v.(*ssa.UnOp); ok && u.Op == token.NOT {
+				v = u.X
+				continue
+			}
+			break
+		}
+		phi, ok := v.(*ssa.Phi)
+		if !ok {
+			continue
+		}
+		if b, ok := phi.Type().Underlying().(*types.Basic); !ok || b.Kind() != types.Bool {
+			continue
+		}
+		closure := map[*ssa.Phi]bool{}
+		var visit func(q *ssa.Phi)
+		visit = func(q *ssa.Phi) {
+			if closure[q] {
+				return
+			}
+			closure[q] = true
+			for _, e := range q.Edges {
+				if eq, ok := e.(*ssa.Phi); ok {
+					visit(eq)
+				}
+			}
+		}
+		visit(phi)
+		for q := range closure {
+			for _, L := range loops {
+				if !L[site] || !L[q.Block()] {
+					continue
+				}
+				for i, e := range q.Edges {
+					pr := q.Block().Preds[i]
+					if !L[pr] || !q.Block().Dominates(pr) {
+						continue // not a back edge of this loop
+					}
+					// header of L? (q's block must dominate every block of L)
+					isHeader := true
+					for b := range L {
+						if !q.Block().Dominates(b) {
+							isHeader = false
+						}
+					}
+					if !isHeader {
+						continue
+					}
+					if _, isConst := e.(*ssa.Const); !isConst {
+						return q
+					}
+				}
+			}
+		}
+	}
+	return nil
+}
+
 // condAtom renders a branch condition with the sense folded into the operator.
 func condAtom(c core.Cond) string { return condAtomD(c, 0) }
 
@@ -271,6 +335,11 @@ func checkPredClauses(p *core.Prog, r *core.Report, rule string, clauses []predC
 		}
 		for _, s := range sites {
 			n++
+			if fl := stickyFlagOf(s.Block()); fl != nil {
+				r.Bad(rule, key+":per-element-flag", p.Pos(s.Pos()), fmt.Sprintf("%s: the message is decided per element of a loop by a flag (%s) that is not reset for each element — once it has been set for one element it stays set for all later ones, so their violations are no longer reported", cl.explain, fl.Comment))
+			} else {
+				r.OK(rule, key+":per-element-flag", p.Pos(s.Pos()), "no flag controlling this message is carried over from one element of the enclosing loop to the next")
+			}
 			atoms := controlAtoms(s.Block())
 			joined := strings.Join(atoms, " ; ")
 			var missing, wrong []string
